@@ -513,6 +513,13 @@ def correspond(ctx):
         variants = [(mol, 'as-is')]
         if stereo:
             variants.append((strip_stereo(mol), 'stereo-stripped'))
+            labelled = [(x, y) for x, y, b in mol.bonds() if b.stereo is not None]
+            if len(labelled) >= 2:  # partially labelled polyenes: marks exist around a double bond without a label
+                for x, y in (labelled[0], labelled[-1]):
+                    c = mol.copy()
+                    c._bonds[x][y]._stereo = None
+                    c.flush_cache()
+                    variants.append((c, f'unlabelled:{x}-{y}'))
         for m, tag in variants:
             st = has_stereo(m)
             specs = [(sp, None) for sp in dict.fromkeys(['', 'r'] + ctx.rng.sample(SPECS[1:], n_specs))]
@@ -564,11 +571,7 @@ def correspond(ctx):
                         ctx.dist('reread-graph-only(valence-invalid)')
                     ctx.dist('reread:' + ('iso' if not d else 'DIFF'))
                     if d:
-                        if ring_diene_class(d, m):
-                            _state.setdefault('known_class', set()).add((id(m), spec, seed))
-                            ctx.dist('known-finding-cases(ring-diene)')
-                        else:
-                            ctx.cov['disagreements_checked'] += 1
+                        ctx.cov['disagreements_checked'] += 1
                         inp = {'kind': 'roundtrip', 'mol': wire.mol_to_ints(m), 'spec': spec, 'draw_seed': seed, 'first': first, 'name': name}
                         ctx.fail(signature_of(d, m, spec), f'{name} [{spec!r}] written {text!r} re-reads with differences {d[:5]}', inp)
                 else:
@@ -601,9 +604,7 @@ def correspond(ctx):
                 ctx.count(('R', spec, tuple(wire.mol_to_ints(m)), seed), m.bonds_count > 0)
                 if has_stereo(m) and '!s' not in spec:
                     ctx.dist('model-reread-with-stereo-marks')
-                if got.startswith('ok DIFF cis-trans') and (id(m), spec, seed) in _state.get('known_class', ()):
-                    ctx.dist('model-reread-agrees-with-known-finding(ring-diene)')  # the Lean judge sees the same defect
-                elif not got.startswith('ok iso'):
+                if not got.startswith('ok iso'):
                     ctx.cov['disagreements_checked'] += 1
                     ctx.broke('relational', 'model-reread', f'{name}/{tag} [{spec!r}] {got}')
                     _state.setdefault('disagree', []).append((m, spec, seed, name))
@@ -641,7 +642,7 @@ def ring_diene_class(diffs, mol):
 
 
 def signature_of(diffs, mol, spec=''):
-    if ring_diene_class(diffs, mol):
+    if ring_diene_class(diffs, mol):   # fixed finding (891fb3c): a recurrence is reported under its own signature
         return 'C02/ring-diene-cis-trans'
     if 'm' in spec and any(d.startswith('reader-raises') for d in diffs) and max(mol._atoms) > 9999:
         return 'C02/atom-map-over-9999'
@@ -837,8 +838,7 @@ def injectivity(ctx):
             d = judge(c, text, order, '') if judgeable(c) else []
             strings.setdefault(nm, set()).add(text)
             if d:
-                if not ring_diene_class(d, c):
-                    ctx.cov['disagreements_checked'] += 1
+                ctx.cov['disagreements_checked'] += 1
                 ctx.fail(signature_of(d, c, ''), f'stereoisomer {mask} of {nm} written {text!r} re-reads with differences {d[:5]}',
                          {'kind': 'roundtrip', 'mol': wire.mol_to_ints(c), 'spec': '', 'draw_seed': 0, 'first': None})
     ctx.dist('stereoisomers-written-and-reread', n_iso)
